@@ -379,7 +379,7 @@ def gen_cases(run):
             cases.append(dict(kind='pipe', phase=phase, filters=[['if_output', v]], data={'a': ["i", 1]}))
             cases.append(dict(kind='pipe', phase=phase, filters=[['if_not_init', v]], data={'a': ["i", 1]}))
     # random pipelines of <= 3 filters (thorough: more)
-    n = 2500 if run.tier == 'quick' else 20000
+    n = 2500 if run.tier == 'quick' else 50000
     for _ in range(n):
         fs = [rand_filter(rng) for _ in range(rng.choice([0, 1, 1, 2, 2, 3, 3]))]
         cases.append(dict(kind='pipe', phase='pre' if rng.random() < 0.15 else 'run',
@@ -398,7 +398,7 @@ def gen_cases(run):
                                   filters=[['dataedit', 'class' if ln % 2 else 'instance', list(chain)]],
                                   data=d))
     # Delta: sequences with the same filter instance
-    for _ in range(300 if run.tier == 'quick' else 3000):
+    for _ in range(300 if run.tier == 'quick' else 9000):
         floaty = rng.random() < 0.4
         delta = rng.choice([0, 1, 2, 5, 10]) if not floaty else rng.choice(["1/2", "5/2", "1/4"])
         vals = []
